@@ -91,6 +91,12 @@ class C06(RProp):
     def generate(self, tier, rnd):
         n = 1000 if tier == "quick" else 100000
         out = []
+        if tier != "quick":
+            for cfg in rgen.enumerate_small():
+                cfg["flip"] = [i for i, j in enumerate(cfg["jobs"]) if i and not j["sched"] and not j["crit"]]
+                if cfg["flip"]:
+                    out.append(cfg)
+        n += len(out)
         while len(out) < n:
             mj = rnd.choice([3, 5, 8, self.max_jobs, self.max_jobs])
             cfg = rgen.gen_config(rnd, max_jobs=mj, profile=self.profile)
